@@ -383,6 +383,7 @@ func c15Crash(c *Ctx, kind string) {
 		{name: "overwrite-big", keys: []string{"a"}, kind: "put", body: big},
 		{name: "overwrite-empty", keys: []string{"a"}, kind: "put", body: nil},
 		{name: "overwrite-one-byte", keys: []string{"a"}, kind: "put", body: []byte("x")},
+		{name: "overwrite-same-size", keys: []string{"a"}, kind: "put", body: []byte("y")},
 		{name: "delete", keys: []string{"b/c"}, kind: "del", run: func(h *crashHarness) int {
 			return h.inst.Do(impl.Req{Method: "DELETE", Path: "/" + h.bucket + "/b/c"}).Status
 		}},
